@@ -334,6 +334,10 @@ def run(out, tier, seed):
     cx = Ctx("c10")
     rnd = random.Random(seed * 7919 + 17)
     progs = all_programs(3 if thorough else 2)
+    if not thorough:
+        # the direction bookkeeping of the DSL only shows with an adapter on each side of `rev()`:
+        # every depth-3 chain containing `rev`, with the two consumers that expose the whole sequence
+        progs += [p for p in all_programs(3) if len(p.ads) == 3 and any(a.name == "rev" for a in p.ads) and p.cons[0] in ("for_each", "fold")]
     exhaustive_n = len(progs)
     nrand = 10000 if thorough else 1500
     seen = set(tuple(p.names()) + tuple(a.k for a in p.ads) for p in progs)
@@ -436,7 +440,7 @@ def run(out, tier, seed):
                                          "engine": "generated-program", "variant": "", "sub": "", "cmd": b, "count_for_sig": 1})
     out.add_counts("generated-programs", evals, "c10-programs", nontrivial, samples,
                    rule="one evaluation = one generated program (konst eval!/for_each!/collect_const! chain) on one input, compared with the identical std method chain and, when the chain reverses, with the std chain whose reversal is hoisted to the source (three-way oracle S/H/K1, DESIGN.md §6/C10); distinct_nontrivial = number of distinct generated programs with at least one adapter",
-                   exhaustive="every type-correct chain of depth <= %d over {copied,map,map-to-pair,filter,filter_map,flat_map,flatten,enumerate,zip(shorter|longer),skip,take,skip_while,take_while,rev} x 3 sources (slice, range, nested slice+flatten) x every consumer (%d programs) + %d seeded random chains of depth %s; each over all arrays of length <= 4 over {0,1,4,6} (341; nested source: 91) x n in 0..=3; %d collect_const! programs x 4-6 const inputs" % (3 if thorough else 2, exhaustive_n, nrand, "4-6" if thorough else "3-5", len(ccs)),
+                   exhaustive="every type-correct chain of depth <= %d (quick tier: plus every depth-3 chain containing rev() with the for_each/fold consumers) over {copied,map,map-to-pair,filter,filter_map,flat_map,flatten,enumerate,zip(shorter|longer),skip,take,skip_while,take_while,rev} x 3 sources (slice, range, nested slice+flatten) x every consumer (%d programs) + %d seeded random chains of depth %s; each over all arrays of length <= 4 over {0,1,4,6} (341; nested source: 91) x n in 0..=3; %d collect_const! programs x 4-6 const inputs" % (3 if thorough else 2, exhaustive_n, nrand, "4-6" if thorough else "3-5", len(ccs)),
                    hist=hist)
     out.counters["programs_generated"] = len(progs) + len(ccs)
     out.counters["programs_failed_to_compile"] = compile_fail_programs
